@@ -178,6 +178,11 @@ func parseContractComments(cs *ContractSet, fset *token.FileSet, pkgPath string,
 					where := fields[1]
 					r := strings.TrimSpace(strings.TrimPrefix(rest, where))
 					loop := -1
+					callee := ""
+					if where == "call" {
+						callee = fields[2]
+						r = strings.TrimSpace(strings.TrimPrefix(r, fields[2]))
+					}
 					if where == "loop" {
 						n, err := strconv.Atoi(fields[2])
 						if err != nil {
@@ -186,7 +191,7 @@ func parseContractComments(cs *ContractSet, fset *token.FileSet, pkgPath string,
 						loop = n
 						r = strings.TrimSpace(strings.TrimPrefix(r, fields[2]))
 					}
-					cl := &Clause{Kind: "use-" + where, Tags: ctags, Text: r, File: fname, Line: line, Loop: loop}
+					cl := &Clause{Kind: "use-" + where, Tags: ctags, Text: r, File: fname, Line: line, Loop: loop, Label: callee}
 					cur.Clauses = append(cur.Clauses, cl)
 					lastClause = cl
 				case "decreases":
